@@ -91,30 +91,34 @@ def gen_cfg(poldef, mode, errops, depth, **kw):
         "INVARIANTS Emit\nCHECK_DEADLOCK FALSE\n"
 
 
-def write_hists(res, path, limit=None, seed=0):
-    """Write the histories TLC printed; mark a step `skip` when its whole call prefix was
-    already seen in an earlier history of this file (the harness still executes the call,
-    it does not repeat the checks). Returns (#histories, samples, #distinct prefixes)."""
+def write_hists(res, f, tag, seen, limit=None):
+    """Append the histories TLC printed to the open file f; mark a step `skip` when its whole
+    call prefix was already seen in an earlier history of the same plan (the harness still
+    executes the call, it does not repeat the checks).
+    Returns (#histories, samples, #distinct prefixes checked, calls seen)."""
     n = 0
     samples = []
-    seen = set()
-    with open(path, "w") as f:
-        for h in res.hists():
-            key = ()
-            for st in h:
-                c = st["call"]
-                key = hash((key, c["a"], c["r"], c["p"], c["s"], c["ok"]))
-                if key in seen:
-                    st["skip"] = True
-                else:
-                    seen.add(key)
-            f.write(json.dumps(h, separators=(",", ":")) + "\n")
-            if n < 1:
-                samples.append(" ; ".join(calls_of(h)))
-            n += 1
-            if limit and n >= limit:
-                break
-    return n, samples, len(seen)
+    before = len(seen)
+    calls = {}
+    for h in res.hists():
+        key = tag
+        for st in h:
+            c = st["call"]
+            key = hash((key, c["a"], c["r"], c["p"], c["s"], c["ok"]))
+            if key in seen:
+                st["skip"] = True
+            else:
+                seen.add(key)
+            if c["a"] != "init":
+                k = c["a"] + ("" if c["ok"] else "!")
+                calls[k] = calls.get(k, 0) + 1
+        f.write(json.dumps(h, separators=(",", ":")) + "\n")
+        if n < 1:
+            samples.append(" ; ".join(calls_of(h)))
+        n += 1
+        if limit and n >= limit:
+            break
+    return n, samples, len(seen) - before, calls
 
 
 def go(ctx, run, env, tag, timeout=1500):
@@ -205,13 +209,13 @@ def run(ctx):
         return r
 
     # model size: the product (view, com) is what grows; MaxPending bounds the calls per tx
-    pdm = dict(sorted(pd0.items())[:2])
     if not thorough:
+        pdm = dict(sorted(pd0.items())[1:2])
         kw = dict(subjects=1, roles=2, pending=2, req=REQ4)
-        err = False
     else:
+        pdm = dict(sorted(pd0.items())[:2])
         kw = dict(subjects=1, roles=2, pending=2, req=REQ6)
-        err = True
+    err = True
     # repaired designs: everything must hold (proves there is no window besides the named one)
     for m in (("cascade", "refuse") if thorough else ("cascade",)):
         r = mc("mc_" + m, mc_cfg(pdm, m, err, True, **kw), pdm)
@@ -241,44 +245,44 @@ def run(ctx):
     else:
         plans.append(("bfs", pd0, False, 5, None, None))
         plans.append(("bfs_err", pd1, True, 4, None, None))
-        plans.append(("sim2", POLDEFS[(ctx.seed + 2) % len(POLDEFS)], False, 12, "num=300", REQ8))
-        plans.append(("sim3", POLDEFS[(ctx.seed + 3) % len(POLDEFS)], True, 12, "num=300", REQ8))
+        plans.append(("sim2", POLDEFS[(ctx.seed + 2) % len(POLDEFS)], False, 12, "num=150", REQ8))
+        plans.append(("sim3", POLDEFS[(ctx.seed + 3) % len(POLDEFS)], True, 12, "num=150", REQ8))
     total = 0
     samples = []
-    bad_rows = []
     stats = {"enforce_calls": 0, "allowed": 0, "deviating_requests": 0}
     replays = []
     calls_seen = {}
-    for tag, pd, errops, depth, sim, req in plans:
-        cfg = gen_cfg(pd, mode, errops, depth, **({"req": req} if req else {}))
-        r = ctx.tlc(AREA, "RBACGenMC", tag + ".cfg",
-                    files={tag + ".cfg": cfg, "RBACGenMC.tla": mc_module("RBACGen", pd)},
-                    tag=tag, workers=workers if not sim else 4, simulate=sim, depth=depth + 2 if sim else None,
-                    timeout=2400, heap="8g")
-        if r.violated:
-            raise vlib.Inconclusive("generator spec violated %s" % r.violated)
-        hp = ctx.path(tag + ".ndjson")
-        # -simulate: num is per worker, and TLC evaluates the Emit invariant on every successor
-        # of the last step, so one trace yields ~20 sibling histories sharing a prefix
-        n, smp, nprefix = write_hists(r, hp, limit=80000)
-        if n == 0:
-            raise vlib.Inconclusive("no histories generated (%s)" % tag)
-        with open(hp) as f:
-            for ln in f:
-                for st in json.loads(ln)[1:]:
-                    key = st["call"]["a"] + ("" if st["call"]["ok"] else "!")
-                    calls_seen[key] = calls_seen.get(key, 0) + 1
-        samples += smp
-        summ, bad, wall = replay_file(ctx, hp, "rp_" + tag, workers=workers)
-        if summ["replayed"] != n:
-            raise vlib.Inconclusive("replayed %s of %s histories (%s)" % (summ["replayed"], n, tag))
-        total += n
-        for k in stats:
-            stats[k] += summ.get(k, 0)
-        replays.append({"plan": tag, "histories": n, "distinct_prefixes_checked": nprefix, "depth": depth, "err_ops": errops, "simulated": bool(sim),
-                        "tlc_wall_s": round(r.wall, 1), "replay_wall_s": round(wall, 1),
-                        "not_ok": len(bad)})
-        bad_rows += [(hp, b) for b in bad]
+    seen = set()
+    hp = ctx.path("hist.ndjson")
+    with open(hp, "w") as hf:
+        for tag, pd, errops, depth, sim, req in plans:
+            cfg = gen_cfg(pd, mode, errops, depth, **({"req": req} if req else {}))
+            r = ctx.tlc(AREA, "RBACGenMC", tag + ".cfg",
+                        files={tag + ".cfg": cfg, "RBACGenMC.tla": mc_module("RBACGen", pd)},
+                        tag=tag, workers=workers if not sim else 4, simulate=sim, depth=depth + 2 if sim else None,
+                        timeout=2400, heap="8g")
+            if r.violated:
+                raise vlib.Inconclusive("generator spec violated %s" % r.violated)
+            # -simulate: num is per worker, and TLC evaluates the Emit invariant on every successor
+            # of the last step, so one trace yields ~20 sibling histories sharing a prefix
+            n, smp, nprefix, calls = write_hists(r, hf, tag, seen, limit=80000)
+            os.remove(r.out_path)
+            if n == 0:
+                raise vlib.Inconclusive("no histories generated (%s)" % tag)
+            for k, v in calls.items():
+                calls_seen[k] = calls_seen.get(k, 0) + v
+            samples += smp
+            total += n
+            replays.append({"plan": tag, "histories": n, "distinct_prefixes_checked": nprefix, "depth": depth,
+                            "err_ops": errops, "simulated": bool(sim), "tlc_wall_s": round(r.wall, 1)})
+    # one go test invocation for all plans (every history carries its own init record)
+    summ, bad, wall = replay_file(ctx, hp, "rp", workers=workers)
+    if summ["replayed"] != total:
+        raise vlib.Inconclusive("replayed %s of %s histories" % (summ["replayed"], total))
+    for k in stats:
+        stats[k] += summ.get(k, 0)
+    replay_wall = round(wall, 1)
+    bad_rows = [(hp, b) for b in bad]
 
     # 3. verdicts. Each distinct signature is reproduced once from scratch.
     drift = [b for _, b in bad_rows if b.get("drift")]
@@ -341,7 +345,7 @@ def run(ctx):
         "samples": samples[:3],
         "exhaustive": True,
         "design_runs": design,
-        "replays": replays,
+        "replays": replays, "replay_wall_s": replay_wall, "histories_not_ok": len(bad_rows),
         "role_delete_mode": mode,
         "window_DeleteRoleOrphan_reachable_in_spec": window,
         "calls_replayed": calls_seen,
